@@ -126,6 +126,27 @@ GROUPS = {
          calls={"X:Pds.TDigest.ScaleFn α.f": ("{0}.f {1} {2}", "F"), "X:Pds.TDigest.ScaleFn α.f_inv": ("{0}.fInv {1} {2}", "F"),
                 "S:Centroid.fuse": ("let p_ := Centroid_fuse {0}.sum {0}.count {1}.sum {1}.count; ({ sum := p_.1, count := p_.2 } : Pds.TDigest.Centroid α)", "S:Centroid")}),
  ],
+ "k_bloom_ops": [
+    dict(file="src/filters/bloomfilter.rs", fn="insert", lean="bloom_insert", mode="flow",
+         self=[], self_mut=[("bs", "L(B)")], extra=[("positions", "L(N)")], drop=["obj"], returns="B",
+         subst=[(r"self\.builder\.iter_for\(obj\)", "positions"),
+                (r"was_present &= self\.bs\.put\(pos\);", "let prev = bs_put(pos); was_present = was_present && prev;"),
+                (r"Ok\(!was_present\)", "!was_present")],
+         effects={"bs_put": ("KOps.bitPut {self.bs} {0}", "B", "self.bs", "partial")}),
+    dict(file="src/filters/bloomfilter.rs", fn="query", lean="bloom_query", mode="flow",
+         self=[("bs", "L(B)")], self_mut=[], extra=[("positions", "L(N)")], drop=["obj"], returns="B",
+         subst=[(r"self\.builder\.iter_for\(obj\)", "positions"),
+                (r"if !self\.bs\[pos\] \{", "let bit = self.bs[pos]; if !bit {")]),
+ ],
+ "k_cms_ops": [
+    dict(file="src/countminsketch.rs", fn="add_n", lean="cms_add_n", mode="flow",
+         self=[("w", "N"), ("cmax", "N")], self_mut=[("table", "L(N)")], extra=[("positions", "L(N)")], drop=["obj"],
+         param_types={"n": "N"}, returns="N",
+         subst=[(r"self\.builder\.iter_for\(obj\)", "positions"), (r"C::zero\(\)", "0"),
+                (r"self\.table\[x\] = current\.checked_add\(n\)\.unwrap\(\);", "let nv = checked_add(current, n); self.table[x] = nv;"),
+                (r"result\.checked_add\(n\)\.unwrap\(\)\s*\}\s*$", "let r = checked_add(result, n); r }")],
+         effects={"checked_add": ("KOps.checkedAddMax {self.cmax} {0} {1}", "N", None)}),
+ ],
 }
 STRUCTS = {
     "Centroid": {"lean": "Pds.TDigest.Centroid α", "fields": [("sum", "F"), ("count", "F")]},
@@ -135,7 +156,7 @@ STRUCTS = {
 MODULE = {"k_td_core": "TdCore", "k_td_scale": "TdScale", "k_sizing_bloom": "SizingBloom", "k_sizing_cms": "SizingCms",
           "k_sizing_lossy": "SizingLossy", "k_sizing_cuckoo": "SizingCuckoo", "k_alloc": "Alloc", "k_hll_add": "HllAdd",
           "k_hll_err": "HllErr", "k_hashiter": "HashIter", "k_cuckoo": "Cuckoo", "k_quotient": "Quotient", "k_reservoir": "Reservoir",
-          "k_reservoir_add": "ReservoirAdd", "k_td_read": "TdRead", "k_td_merge": "TdMerge"}
+          "k_reservoir_add": "ReservoirAdd", "k_td_read": "TdRead", "k_td_merge": "TdMerge", "k_bloom_ops": "BloomOps", "k_cms_ops": "CmsOps"}
 IMPORTS = {"k_td_read": ["TdCore"], "k_td_merge": ["TdCore"]}
 # hand-written modules a generated module needs (type definitions only)
 LEAN_IMPORTS = {"k_reservoir_add": ["Pds.Model.Reservoir"], "k_td_read": ["Pds.Model.TDigest"], "k_td_merge": ["Pds.Model.TDigest"]}
